@@ -10,32 +10,36 @@ Open Scope N_scope.
 Local Arguments lit : simpl never.
 
 Definition keeps (s s' : shared) : Prop :=
-  forall n u', users s' !! n = Some u' ->
-    exists u, users s !! n = Some u /\ u_conn u' = u_conn u /\ u_modes u' = u_modes u.
+  (forall n u', users s' !! n = Some u' ->
+     exists u, users s !! n = Some u /\ u_conn u' = u_conn u /\ u_modes u' = u_modes u) /\
+  max_users s' = max_users s.
 
 Lemma keeps_refl s : keeps s s.
-Proof. intros n u H. eauto. Qed.
+Proof. split; [intros n u H; eauto|reflexivity]. Qed.
 
 Lemma keeps_trans s1 s2 s3 : keeps s1 s2 -> keeps s2 s3 -> keeps s1 s3.
 Proof.
-  intros A B n u3 H. destruct (B n u3 H) as [u2 [H2 [C2 M2]]]. destruct (A n u2 H2) as [u1 [H1 [C1 M1]]].
+  intros [A Am] [B Bm]. split; [|congruence]. intros n u3 H. destruct (B n u3 H) as [u2 [H2 [C2 M2]]]. destruct (A n u2 H2) as [u1 [H1 [C1 M1]]].
   exists u1. repeat split; congruence.
 Qed.
 
-Lemma keeps_users_eq s s' : users s' = users s -> keeps s s'.
-Proof. intros E n u H. rewrite E in H. eauto. Qed.
+Lemma keeps_users_eq s s' : users s' = users s -> max_users s' = max_users s -> keeps s s'.
+Proof. intros E Em. split; [|exact Em]. intros n u H. rewrite E in H. eauto. Qed.
 
 Lemma keeps_insert s s' n u u' :
-  users s' = <[n := u']> (users s) -> users s !! n = Some u -> u_conn u' = u_conn u -> u_modes u' = u_modes u ->
+  users s' = <[n := u']> (users s) -> max_users s' = max_users s -> users s !! n = Some u -> u_conn u' = u_conn u -> u_modes u' = u_modes u ->
   keeps s s'.
 Proof.
-  intros E Hu Hc Hm n0 u0 H. rewrite E in H. destruct (decide (n0 = n)) as [->|Hne].
+  intros E Em Hu Hc Hm. split; [|exact Em]. intros n0 u0 H. rewrite E in H. destruct (decide (n0 = n)) as [->|Hne].
   - rewrite lookup_insert in H. injection H as <-. eauto.
   - rewrite lookup_insert_ne in H by congruence. eauto.
 Qed.
 
-Lemma keeps_subset s s' : (forall n u, users s' !! n = Some u -> users s !! n = Some u) -> keeps s s'.
-Proof. intros H n u Hu. exists u. auto. Qed.
+Lemma keeps_size s s' : keeps s s' -> (size (users s') <= size (users s))%nat.
+Proof.
+  intros [K _]. rewrite <- (size_dom (D:=gset str) (users s')), <- (size_dom (D:=gset str) (users s)). apply subseteq_size.
+  intros n Hn. apply elem_of_dom in Hn as [u' Hu']. destruct (K n u' Hu') as [u [Hu _]]. apply elem_of_dom. eauto.
+Qed.
 
 Lemma rfold_keeps {A} (f : shared -> A -> res shared) l :
   (forall s x s', f s x = Ok s' -> keeps s s') -> forall s s', rfold f l s = Ok s' -> keeps s s'.
@@ -49,13 +53,13 @@ Qed.
 Lemma remove_from_channel_keeps ch nick s s' : st_remove_user_from_channel ch nick s = Ok s' -> keeps s s'.
 Proof.
   unfold st_remove_user_from_channel.
-  assert (forall s1, users s1 = users s ->
+  assert (forall s1, users s1 = users s -> max_users s1 = max_users s ->
             match users s1 !! nick with
             | Some u => Ok (set_users (fun us => <[nick := u_set_chans (fun cs => cs ∖ {[ch]}) u]> us) s1)
             | None => Ok s1
             end = Ok s' -> keeps s s') as K.
-  { intros s1 E. destruct (users s1 !! nick) as [u|] eqn:Hu; intros [= <-].
-    - eapply (keeps_insert s _ nick u); cbn; [now rewrite E|now rewrite <- E|destruct u; reflexivity|destruct u; reflexivity].
+  { intros s1 E Em. destruct (users s1 !! nick) as [u|] eqn:Hu; intros [= <-].
+    - eapply (keeps_insert s _ nick u); cbn; [now rewrite E|exact Em|now rewrite <- E|destruct u; reflexivity|destruct u; reflexivity].
     - now apply keeps_users_eq. }
   destruct (chans s !! ch) as [co|]; cbn [rbind]; [|now apply K].
   destruct (chan_remove_user nick co) as [co'|]; cbn [rbind]; [|discriminate].
@@ -67,9 +71,9 @@ Proof.
   destruct x as [ch [j cr]]. unfold join_insert. destruct (negb j); [intros [= <-]; apply keeps_refl|].
   unfold get_user. destruct (users s !! nick) as [u|] eqn:Hu; cbn [rbind]; [|discriminate].
   destruct cr.
-  - intros [= <-]. eapply (keeps_insert s _ nick u); cbn; [reflexivity|exact Hu|destruct u; reflexivity|destruct u; reflexivity].
+  - intros [= <-]. eapply (keeps_insert s _ nick u); cbn; [reflexivity|reflexivity|exact Hu|destruct u; reflexivity|destruct u; reflexivity].
   - unfold get_chan. cbn [chans set_users]. destruct (chans s !! ch); cbn [rbind]; [|discriminate].
-    intros [= <-]. eapply (keeps_insert s _ nick u); cbn; [reflexivity|exact Hu|destruct u; reflexivity|destruct u; reflexivity].
+    intros [= <-]. eapply (keeps_insert s _ nick u); cbn; [reflexivity|reflexivity|exact Hu|destruct u; reflexivity|destruct u; reflexivity].
 Qed.
 
 Section frame.
@@ -130,7 +134,7 @@ Proof.
   destruct (ch_users co !! nick) as [rk|]; [|intros H; same H].
   destruct (_ && _); [intros H; same H|]. destruct (bool_decide _); [intros H; same H|].
   destruct (users s !! nickname) as [inv|] eqn:Hu; [|intros H; same H].
-  intros [= <-]. cbn [h_sh]. eapply (keeps_insert s _ nickname inv); cbn; [reflexivity|exact Hu|destruct inv; reflexivity|destruct inv; reflexivity].
+  intros [= <-]. cbn [h_sh]. eapply (keeps_insert s _ nickname inv); cbn; [reflexivity|reflexivity|exact Hu|destruct inv; reflexivity|destruct inv; reflexivity].
 Qed.
 
 Lemma mode_channel_keeps s c target nick co rk modes r :
@@ -149,7 +153,7 @@ Proof.
   destruct (um_oper (u_modes u)); [|intros H; same H].
   destruct (users s !! nickname) as [v|] eqn:Hv; [|intros H; same H].
   destruct (u_kill v); [intros H; same H|].
-  intros [= <-]. cbn [h_sh]. eapply (keeps_insert s _ nickname v); cbn; [reflexivity|exact Hv|destruct v; reflexivity|destruct v; reflexivity].
+  intros [= <-]. cbn [h_sh]. eapply (keeps_insert s _ nickname v); cbn; [reflexivity|reflexivity|exact Hv|destruct v; reflexivity|destruct v; reflexivity].
 Qed.
 
 Lemma die_keeps s c message r : process_die cfg i s c message = Ok r -> keeps s (h_sh r).
@@ -157,7 +161,7 @@ Proof.
   unfold process_die. destruct (own_nick c) as [nick|]; cbn [rbind]; [|discriminate].
   destruct (get_user s nick) as [u|]; cbn [rbind]; [|discriminate].
   destruct (um_oper (u_modes u)); [|intros H; same H].
-  intros [= <-]. cbn [h_sh]. intros n u' H. cbn in H. rewrite lookup_fmap in H.
+  intros [= <-]. cbn [h_sh]. split; [|reflexivity]. intros n u' H. cbn in H. rewrite lookup_fmap in H.
   destruct (users s !! n) as [v|] eqn:Hv; [|discriminate]. cbn in H. injection H as <-.
   exists v. split; [reflexivity|]. destruct (u_kill v); [auto|]. destruct v; auto.
 Qed.
@@ -166,7 +170,7 @@ Lemma away_keeps s c text r : process_away cfg i s c text = Ok r -> keeps s (h_s
 Proof.
   unfold process_away. destruct (own_nick c) as [nick|]; cbn [rbind]; [|discriminate].
   unfold get_user. destruct (users s !! nick) as [u|] eqn:Hu; cbn [rbind]; [|discriminate].
-  intros [= <-]. cbn [h_sh]. eapply (keeps_insert s _ nick u); cbn; [reflexivity|exact Hu|destruct u; reflexivity|destruct u; reflexivity].
+  intros [= <-]. cbn [h_sh]. eapply (keeps_insert s _ nick u); cbn; [reflexivity|reflexivity|exact Hu|destruct u; reflexivity|destruct u; reflexivity].
 Qed.
 
 End frame.
@@ -182,7 +186,7 @@ Definition no_new_local_oper (s s' : shared) : Prop :=
 
 Lemma keeps_no_new s s' : keeps s s' -> no_new_oper s s' /\ no_new_local_oper s s'.
 Proof.
-  intros K. split; intros n u' Hu Ho; destruct (K n u' Hu) as [u [H [Hc Hm]]]; exists n, u; rewrite <- Hm; auto.
+  intros [K _]. split; intros n u' Hu Ho; destruct (K n u' Hu) as [u [H [Hc Hm]]]; exists n, u; rewrite <- Hm; auto.
 Qed.
 
 Lemma no_new_oper_trans s1 s2 s3 : no_new_oper s1 s2 -> no_new_oper s2 s3 -> no_new_oper s1 s3.
